@@ -450,6 +450,8 @@ class Interp:
             return _json.dumps(args[0]) if plain(args[0]) else TOP
         if name == 'collections.deque':
             return self._to_list(args[0]) if args else []
+        if name == 'builtins.vars' and args and isinstance(args[0], AObj):
+            return {k: v for k, v in args[0].attrs.items() if k != '__bases__'}          # the object's own namespace
         if name == 'builtins.callable':
             return args[0] is not None and not isinstance(args[0], (str, int, bool))
         if name == 'builtins.str':
@@ -827,6 +829,13 @@ class Interp:
         if isinstance(obj, AObj):
             if real in obj.attrs:
                 return obj.attrs[real]
+            if isinstance(obj.cls, tuple) and obj.cls[1] == 'created-class' and attr != '__bases__':
+                # a class object modelled by its namespace: attributes missing there are inherited from its bases
+                for base in obj.attrs.get('__bases__', ()):
+                    if isinstance(base, AObj):
+                        v = self.getattr_(base, attr, env, node)
+                        if v is not TOP:
+                            return v
             if attr in ('predecessors', 'successors', 'in_edges', 'out_edges', 'has_node', 'has_edge', 'add_node', 'add_edge',
                         'copy') and 'edges' in obj.attrs and isinstance(obj.attrs['edges'], dict):
                 return AExt(f'networkx.DiGraph.{attr}', recv=obj)           # an abstract graph given by its edge / node tables
